@@ -20,7 +20,9 @@ Definition hav (latA lonA latB lonB : R) : R :=
 
 (* geo.DistanceToHaversine / DistanceFromHaversine / DistanceTo *)
 Definition dist_to_hav (m : R) : R := let s := sin ((1 / 2) * m / Rearth) in s * s.
-Definition dist_from_hav (h : R) : R := Rearth * 2 * asin (sqrt h).
+(* the square root is clamped to 1 (geo.go, since the repair a5ec9f5: the float haversine of an antipodal
+   pair can round to just above 1) *)
+Definition dist_from_hav (h : R) : R := Rearth * 2 * asin (Rmin 1 (sqrt h)).
 Definition distance_to (latA lonA latB lonB : R) : R := dist_from_hav (hav latA lonA latB lonB).
 
 Definition piR : R := PI * Rearth.
@@ -117,7 +119,7 @@ Proof.
   intros H. unfold dist_from_hav, dist_to_hav. cbv zeta.
   pose proof (half_angle_bounds m H) as [A1 A2]. pose proof PI_RGT_0.
   assert (S0 : 0 <= sin ((1 / 2) * m / Rearth)) by (apply sin_ge_0; lra).
-  rewrite sqrt_square by exact S0. rewrite asin_sin by lra.
+  rewrite sqrt_square by exact S0. rewrite Rmin_right by (pose proof (SIN_bound ((1 / 2) * m / Rearth)); lra). rewrite asin_sin by lra.
   unfold Rearth. lra.
 Qed.
 
@@ -126,9 +128,10 @@ Theorem hav_dist_inverse h : 0 <= h <= 1 -> dist_to_hav (dist_from_hav h) = h.
 Proof.
   intros [H0 H1]. unfold dist_from_hav, dist_to_hav. cbv zeta.
   pose proof Rearth_pos.
-  replace ((1 / 2) * (Rearth * 2 * asin (sqrt h)) / Rearth) with (asin (sqrt h)) by (unfold Rearth; lra).
   assert (Hs : 0 <= sqrt h <= 1).
   { split; [apply sqrt_pos|]. rewrite <- sqrt_1. apply sqrt_le_1_alt. exact H1. }
+  rewrite Rmin_right by lra.
+  replace ((1 / 2) * (Rearth * 2 * asin (sqrt h)) / Rearth) with (asin (sqrt h)) by (unfold Rearth; lra).
   rewrite sin_asin by lra. apply sqrt_sqrt. exact H0.
 Qed.
 
@@ -140,6 +143,7 @@ Proof.
   set (h := hav a b c d) in *.
   assert (Hs : 0 <= sqrt h <= 1).
   { split; [apply sqrt_pos|]. rewrite <- sqrt_1. apply sqrt_le_1_alt. exact H1. }
+  rewrite Rmin_right by lra.
   pose proof (asin_bound (sqrt h)) as [B1 B2].
   assert (A0 : 0 <= asin (sqrt h)).
   { destruct (Rle_dec 0 (asin (sqrt h))) as [L|L]; [exact L|]. exfalso.
@@ -149,11 +153,17 @@ Proof.
   pose proof Rearth_pos. pose proof PI_RGT_0. split; nra.
 Qed.
 
+(* whatever the haversine rounds to, the metres never exceed half the circumference *)
+Theorem dist_from_hav_le_piR h : dist_from_hav h <= piR.
+Proof.
+  unfold dist_from_hav, piR. pose proof (asin_bound (Rmin 1 (sqrt h))) as [_ B]. pose proof Rearth_pos. nra.
+Qed.
+
 Theorem distance_sym a b c d : distance_to a b c d = distance_to c d a b.
 Proof. unfold distance_to. rewrite hav_sym. reflexivity. Qed.
 
 Theorem distance_refl a b : distance_to a b a b = 0.
-Proof. unfold distance_to, dist_from_hav. rewrite hav_refl, sqrt_0, asin_0. ring. Qed.
+Proof. unfold distance_to, dist_from_hav. rewrite hav_refl, sqrt_0, Rmin_right, asin_0 by lra. ring. Qed.
 
 (* ------------------------------------------------------------------ *)
 (* C15: distance normalisation (math.Mod by the full circumference)      *)
